@@ -208,9 +208,11 @@ def CK.advance (c : CK) : CK × Option Nat :=
     let ne := (c.nextEpoch + c.epoch) % U32
     ({ c with value := v, nextEpoch := ne }, some ne)
   else ({ c with value := v }, none)
-/-- `advance_by(delta)` -/
+/-- `advance_by(delta)`; `next_epoch.wrapping_sub(value)` on `u32` operands is
+`(next_epoch + (2^32 - value)) % 2^32` (written so that no big literal is *added* under the
+comparison: the kernel would peel it one `succ` at a time) -/
 def CK.advanceBy (c : CK) (delta : Nat) : CK × Option Nat :=
-  let dist := (c.nextEpoch + U32 - c.value) % U32
+  let dist := (c.nextEpoch + (U32 - c.value)) % U32
   let v := (c.value + delta) % U32
   if delta ≥ dist then
     let ne := (v + c.epoch) % U32
